@@ -9,10 +9,12 @@ RULE = ("trees are enumerated by TLC as sequences of public operations (MC_Eleme
 
 
 def run(tier, rep):
-    pools = ["case", "separators", "concat", "shadow", "keywords", "prefixed", "nonascii", "depth", "underscore", "fields", "fields2", "xmlnsish", "attrcase", "suffixlit"]
+    pools = ["case", "separators", "concat", "shadow", "keywords", "prefixed", "nonascii", "depth", "underscore", "fields", "fields2", "xmlnsish", "attrcase", "kwsibling", "suffixlit"]
     pools += ["digits", "caseruns"] + rc.keyword_pools(tier)
     rc.render_pools(rep, "C04", tier, pools, rc.C04_TAGS, limit=600 if tier == "quick" else 15000)
     rc.random_trees(rep, "C04", tier, rc.C04_TAGS, n=300 if tier == "quick" else 5000)
+    rc.random_trees(rep, "C04", tier, rc.C04_TAGS, pool=["a", "b", "c", "d"], remove=0, mode="paths", pool_all=True,
+                    n=1200 if tier == "quick" else 20000, tag="paths")
     # scale: wide elements, long names
     wide = ["k%s" % ch for ch in "abcdefghijklmn"] + ["type", "Type", "a-rather-long-hyphenated-element-name", "ARatherLongCamelCaseElementName"]
     rc.random_trees(rep, "C04", tier, rc.C04_TAGS, n=20 if tier == "quick" else 500, ops=80, pool=wide, root_bias=60, pool_all=True, tag="wide")
